@@ -739,3 +739,70 @@ func ifaceReceiver(c *ssa.CallCommon) ssa.Value {
 	}
 	return nil
 }
+
+func debugEnvOn() bool { return len(debugEnvVar) > 0 }
+
+var debugEnvVar = envOf("RTDEBUG")
+
+func envOf(k string) string { return os.Getenv(k) }
+
+// pathExistsAfter is pathExists(f, a, b, …) for paths that CONTINUE an execution which has reached a: the outcomes of
+// the tests that dominate a (the branch a sits on) are kept — a later test of the same SSA value (defined outside any
+// loop), or of the same pure condition over unmodified state, cannot come out the other way.
+func pathExistsAfter(f *ssa.Function, a, b ssa.Instruction) bool {
+	type fact struct {
+		v    ssa.Value
+		want bool
+	}
+	var byValue []fact
+	byKey := map[string]bool{}
+	strip := func(c ssa.Value, br bool) (ssa.Value, bool) {
+		for i := 0; i < 4; i++ {
+			if u, ok := c.(*ssa.UnOp); ok && u.Op == token.NOT {
+				c, br = u.X, !br
+				continue
+			}
+			break
+		}
+		return c, br
+	}
+	if a.Parent() == f && a.Block() != nil {
+		for d := a.Block().Idom(); d != nil; d = d.Idom() {
+			iff, ok := lastInstr(d).(*ssa.If)
+			if !ok || len(d.Succs) != 2 {
+				continue
+			}
+			on := func(s *ssa.BasicBlock) bool {
+				return (s == a.Block() || s.Dominates(a.Block())) && len(s.Preds) == 1
+			}
+			t, e := on(d.Succs[0]), on(d.Succs[1])
+			if t == e {
+				continue
+			}
+			cv, want := strip(iff.Cond, t)
+			if in, isIn := cv.(ssa.Instruction); isIn && in.Block() != nil && !reachableFrom(in.Block(), in.Block()) {
+				if _, isPhi := cv.(*ssa.Phi); !isPhi {
+					byValue = append(byValue, fact{cv, want})
+				}
+			}
+			if key, neg, okK := stableCondKey(iff.Cond); okK {
+				byKey[key] = t != neg
+			}
+		}
+	}
+	contradicts := func(cond ssa.Value, br bool) bool {
+		cv, w := strip(cond, br)
+		for _, ft := range byValue {
+			if ft.v == cv && ft.want != w {
+				return true
+			}
+		}
+		if key, neg, okK := stableCondKey(cond); okK {
+			if want, has := byKey[key]; has && want != (br != neg) {
+				return true
+			}
+		}
+		return false
+	}
+	return pathExists(f, a, b, contradicts, nil)
+}
